@@ -82,6 +82,44 @@ def circular_mean(angles, weights=None, low=0.0, high=TWOPI):
     return m / scale + low, math.hypot(s, c) / wsum
 
 
+def signed_circ(a: float, b: float) -> float:
+    """Signed representative of ``a - b`` on the circle, in (-pi, pi] (exact reduction, rounded once)."""
+    return float(exact_residual(a, b))
+
+
+def cluster_envelope(y0: float, plus, minus, w_side: float, angular: bool):
+    """Analytic envelope of an unscented weighted (circular) mean around the centre sigma point's value.
+
+    Weights: centre w0 = 1 - 2 n w_side, every other point w_side > 0.  With d_i+- the (signed, wrapped) offsets of the
+    paired points from the centre value,
+        S = sum_i w_side (sin d_i+ + sin d_i-),  |S| <= B := w_side * sum_i |d_i+ + d_i-|       (|sin a + sin b| <= |a + b|)
+        C = 1 - sum w_side (1 - cos d) >= 1 - Q, Q := w_side * sum d^2 / 2                      (1 - cos d <= d^2 / 2)
+    hence |mean - y0| = atan(|S| / C) <= atan(B / (1 - Q)) whenever Q < 1.  For a linear component the mean is
+    y0 + w_side * sum (d_i+ + d_i-) exactly, so |mean - y0| <= B.  Returns (radius, bound, Q): radius = max |d| is the
+    half-width of the cluster, bound is None when Q >= 1/2 (cluster too wide for the envelope to mean anything).
+    """
+    if angular:
+        dp = [signed_circ(float(v), y0) for v in plus]
+        dm = [signed_circ(float(v), y0) for v in minus]
+    else:
+        dp = [float(v) - y0 for v in plus]
+        dm = [float(v) - y0 for v in minus]
+    return envelope_from_offsets(dp, dm, w_side, angular)
+
+
+def envelope_from_offsets(dp, dm, w_side: float, angular: bool):
+    """``cluster_envelope`` for given signed offsets d_i+ / d_i- of the paired points from the centre value."""
+    dp, dm = list(dp), list(dm)
+    radius = max(abs(d) for d in dp + dm)
+    b = w_side * math.fsum(abs(a + c) for a, c in zip(dp, dm))
+    if not angular:
+        return radius, b, 0.0
+    q = w_side * math.fsum(d * d for d in dp + dm) / 2.0
+    if q >= 0.5:
+        return radius, None, q
+    return radius, math.atan(b / (1.0 - q)), q
+
+
 # ------------------------------------------------------------------------------------------------ reference UKF
 def ut_weights(n: int, alpha: float, beta: float, kappa):
     if kappa is None:
@@ -151,4 +189,6 @@ def ref_ukf_step(x0, p0, fmat, qmat, alpha, beta, kappa, hfun, kinds, rmat, z):
         "sigma": sig,
         "dx0": dx[0],
         "dy0": dy[0],
+        "ys": ys,
+        "wm": wm,
     }
